@@ -156,6 +156,9 @@ fn replay(rf: &ReplayFile) -> Vec<(String, String)> {
         Case::Custom { mode, params } if mode == "keyapi" => checks::c12::replay_keyapi(params)
             .map(|d| vec![(rf.clause.clone(), d)])
             .unwrap_or_default(),
+        Case::Custom { mode, params } if mode == "unitksf" => checks::c15::replay_unitksf(params)
+            .map(|d| vec![(rf.clause.clone(), d)])
+            .unwrap_or_default(),
         Case::Custom { mode, params } if mode == "random_sk" => checks::c17::replay_random_sk(params)
             .map(|d| vec![(rf.clause.clone(), d)])
             .unwrap_or_default(),
